@@ -2,7 +2,7 @@
    harness/cmd/c20): the real flow.Inspect(sa) of every flow of a case, and the real execution trace of one
    history over these flows.  No proofs. *)
 From Coq Require Import List NArith Bool.
-From Verif Require Import model.Inspect.
+From Verif Require Import model.ActionRow gen.ActionResults model.Inspect model.InspectExec.
 Import ListNotations.
 Open Scope N_scope.
 
@@ -16,7 +16,14 @@ Record obs_inspection := {
 Record icase := {
   k_flows : list flow;
   k_inspections : list (N * obs_inspection);   (* per f_id *)
-  k_trace : list ostep                         (* all steps of all runs, in order of creation *)
+  k_trace : list ostep;                        (* all steps of all runs, in order of creation *)
+  (* for the differential run of the executable engine (model/InspectExec.v) *)
+  k_exec : bool;                               (* the execution is inside the engine's fragment (see harness: no
+                                                  failure, only msg / wait-timeout resumes, messaging flows, no
+                                                  run without steps) *)
+  k_msg_trigger : bool;
+  k_start : N;                                 (* f_id of the triggered flow *)
+  k_history : list bool                        (* the accepted resumes: true = wait timeout, false = msg *)
 }.
 
 Fixpoint texts_eqb (a b : list text) : bool :=
@@ -65,20 +72,138 @@ Definition deps_ok (A : list flow) (fo : N * obs_inspection) : bool :=
   | None => false
   end.
 
+(* ------------------------------------------------------------------------------------------------ *)
+(* the executable engine, replayed with its oracles read off the observed trace: the engine decides which node is
+   visited next, when a child run starts, when a run waits, when its parent goes on and through which exit; the
+   observed trace only answers what the oracles stand for (which category the tests picked, whether a template
+   evaluated / which service outcome occurred, whether a flow could be entered, which references were carried) *)
+Section Replay.
+  Variable A : list flow.
+  Variable tr : list ostep.
+
+  Definition node_at (o : ostep) : option node :=
+    match lookup_flow A (os_flow o) with Some f => lookup_node f (os_node o) | None => None end.
+
+  Fixpoint index_of (c : text) (l : list text) : nat :=
+    match l with [] => O | x :: r => if text_eqb x c then O else S (index_of c r) end.
+
+  (* the flow with uuid u was entered from step idx: the next step created is the first of a new run of it *)
+  Definition entered (idx : nat) (o : ostep) (u : text) : bool :=
+    match nth_error tr (S idx) with
+    | Some nx =>
+        match os_parent nx, lookup_flow A (os_flow nx) with
+        | Some p, Some cf =>
+            N.eqb p (os_run o) && text_eqb (f_uuid cf) u
+            && forallb (fun q => negb (N.eqb (os_run q) (os_run nx))) (firstn (S idx) tr)
+        | _, _ => false
+        end
+    | None => false
+    end.
+
+  Fixpoint assign (idx : nat) (o : ostep) (acts : list action) (obs : list (text * text)) : list act_outcome :=
+    match acts with
+    | [] => []
+    | a :: rest =>
+        match a_behav a with
+        | BEnterFlow u _ => (if entered idx o u then AOk 0 else ASkip) :: assign idx o rest obs
+        | BPlain => ASkip :: assign idx o rest obs
+        | _ =>
+            match obs with
+            | x :: obs' =>
+                if action_can_save a x
+                then AOk (match a_behav a with BSaver s _ => index_of (snd x) (sv_save_cats s) | _ => O end)
+                     :: assign idx o rest obs'
+                else ASkip :: assign idx o rest obs
+            | [] => ASkip :: assign idx o rest obs
+            end
+        end
+    end.
+
+  Definition r_act (fid nid : N) (i idx : nat) : act_outcome :=
+    match nth_error tr idx with
+    | Some o => match node_at o with
+                | Some n => nth i (assign idx o (n_actions n) (os_saved o)) ASkip
+                | None => ASkip
+                end
+    | None => ASkip
+    end.
+
+  Definition r_pick (fid nid : N) (idx : nat) : option N :=
+    match nth_error tr idx with
+    | Some o =>
+        match os_exit o, node_at o with
+        | Some e, Some n =>
+            match n_router n with
+            | Some r =>
+                let lastcat := last (map snd (os_saved o)) [] in
+                match find (fun c => N.eqb (c_exit c) e && text_eqb (c_name c) lastcat) (rt_categories r) with
+                | Some c => Some (c_id c)
+                | None => match find (fun c => N.eqb (c_exit c) e) (rt_categories r) with
+                          | Some c => Some (c_id c)
+                          | None => None
+                          end
+                end
+            | None => None
+            end
+        | _, _ => None
+        end
+    | None => None
+    end.
+
+  Definition r_touch (fid nid : N) (idx : nat) (r : aref) : bool :=
+    match nth_error tr idx with Some o => ref_in r (os_touched o) | None => false end.
+
+  (* a is a subsequence of b: run_result_changed is logged only when value or category changed, the engine lists
+     every save *)
+  Fixpoint subseq (a b : list (text * text)) : bool :=
+    match a, b with
+    | [], _ => true
+    | _ :: _, [] => false
+    | x :: a', y :: b' => if text_eqb (fst x) (fst y) && text_eqb (snd x) (snd y) then subseq a' b' else subseq a b'
+    end.
+
+  Definition opt_eqb (a b : option N) : bool :=
+    match a, b with Some x, Some y => N.eqb x y | None, None => true | _, _ => false end.
+
+  Definition step_matches (obs eng : ostep) : bool :=
+    N.eqb (os_run obs) (os_run eng) && opt_eqb (os_parent obs) (os_parent eng) && N.eqb (os_flow obs) (os_flow eng)
+    && N.eqb (os_node obs) (os_node eng) && opt_eqb (os_exit obs) (os_exit eng) && Bool.eqb (os_resumed obs) (os_resumed eng)
+    && subseq (os_saved obs) (os_saved eng)
+    && forallb (fun r => ref_in r (os_touched eng)) (os_touched obs)
+    && forallb (fun r => ref_in r (os_touched obs)) (os_touched eng).
+
+  Fixpoint steps_match (a b : list ostep) : bool :=
+    match a, b with
+    | [], [] => true
+    | x :: a', y :: b' => step_matches x y && steps_match a' b'
+    | _, _ => false
+    end.
+End Replay.
+
+Definition engine_trace (k : icase) : list ostep :=
+  exec (k_flows k) (r_pick (k_flows k) (k_trace k)) (r_act (k_flows k) (k_trace k)) (r_touch (k_trace k))
+       (k_msg_trigger k) 400 (k_start k) (k_history k).
+
+Definition replay_ok (k : icase) : bool :=
+  if k_exec k then steps_match (k_trace k) (engine_trace k) else true.
+
 Definition check (k : icase) : bool :=
   forallb (results_ok (k_flows k)) (k_inspections k)
   && forallb (waiting_ok (k_flows k)) (k_inspections k)
   && forallb (deps_ok (k_flows k)) (k_inspections k)
   && forallb valid_flow (k_flows k)
-  && accepts (k_flows k) (k_trace k).
+  && accepts (k_flows k) (k_trace k)
+  && replay_ok k.
 
-(* which part differs (for debugging a mismatch): 1 results, 2 waiting exits, 3 dependencies, 4 validity, 5 trace *)
+(* which part differs (for debugging a mismatch): 1 results, 2 waiting exits, 3 dependencies, 4 validity, 5 trace not
+   accepted, 6 the executable engine does not reproduce the trace *)
 Definition diagnose (k : icase) : list N :=
   (if forallb (results_ok (k_flows k)) (k_inspections k) then [] else [1])
   ++ (if forallb (waiting_ok (k_flows k)) (k_inspections k) then [] else [2])
   ++ (if forallb (deps_ok (k_flows k)) (k_inspections k) then [] else [3])
   ++ (if forallb valid_flow (k_flows k) then [] else [4])
-  ++ (if accepts (k_flows k) (k_trace k) then [] else [5]).
+  ++ (if accepts (k_flows k) (k_trace k) then [] else [5])
+  ++ (if replay_ok k then [] else [6]).
 
 Fixpoint mismatches_from (i : N) (ks : list icase) : list N :=
   match ks with
